@@ -38,6 +38,23 @@ func ApplyDamage(dir string, d Damage) error {
 		b[0] ^= 0x10
 		_, err = f.WriteAt(b[:], d.N)
 		return err
+	case "garble": // overwrite len(S as number) bytes from offset N with different bytes
+		f, err := os.OpenFile(full, os.O_RDWR, 0)
+		if err != nil {
+			return err
+		}
+		defer f.Close()
+		var n int64
+		fmt.Sscan(d.S, &n)
+		buf := make([]byte, n)
+		if _, err := f.ReadAt(buf, d.N); err != nil {
+			return err
+		}
+		for i := range buf {
+			buf[i] ^= 0xa5
+		}
+		_, err = f.WriteAt(buf, d.N)
+		return err
 	case "truncate": // to length N
 		return os.Truncate(full, d.N)
 	case "extend": // by N random bytes
@@ -170,6 +187,13 @@ func FileDamages(path string, size int64) []Damage {
 		for _, n := range []int64{1, 5, rem - 1, rem, rem + 1, BS, 2*BS + 3} {
 			ext(n)
 		}
+	}
+	if size > 5*MB {
+		// long contiguous runs of damaged blocks (more than the 4 MiB wound aggregation limit)
+		out = append(out, Damage{Op: "garble", Path: path, N: 0, S: fmt.Sprint(size)},
+			Damage{Op: "garble", Path: path, N: BS, S: fmt.Sprint(4*MB + 3*BS)},
+			Damage{Op: "garble", Path: path, N: 3*BS + 77, S: fmt.Sprint(size - 3*BS - 77)},
+			Damage{Op: "garble", Path: path, N: 2 * BS, S: fmt.Sprint(4 * MB)})
 	}
 	add("delete", 0)
 	add("todir", 0)
